@@ -575,6 +575,10 @@ func execute(r *core.Run, c *Case) {
 	})
 	if p != nil {
 		r.Count("panicked", 1)
+		if allBenign && conflictFree(c) {
+			// a conformant envelope must be ACCEPTED: a crash is not that
+			r.Violation("conformant-panicked:"+mtName(c.MT), c.desc()+": parsing / verifying a conformant envelope panicked: "+p.Value, c)
+		}
 		return
 	}
 	fail := func(sig, what string) { r.Violation(sig+":"+mtName(c.MT), c.desc()+": "+what, c) }
